@@ -399,6 +399,126 @@ fn fake_header_block(rng: &mut Rng) -> Vec<u8> {
     block
 }
 
+/// One well-formed Full frame around `payload` (checksum over type byte + payload, as the library does).
+fn full_frame(payload: &[u8]) -> Vec<u8> {
+    let mut hasher = crc32fast::Hasher::default();
+    hasher.update(&[1u8]);
+    hasher.update(payload);
+    let mut out = Vec::with_capacity(payload.len() + 7);
+    out.extend_from_slice(&hasher.finalize().to_le_bytes());
+    out.extend_from_slice(&(payload.len() as u16).to_le_bytes());
+    out.push(1);
+    out.extend_from_slice(payload);
+    out
+}
+
+fn raw_entry(record_type: u8, position: u64, queue: &[u8], declared_queue_len: u16, body: &[u8]) -> Vec<u8> {
+    let mut out = vec![record_type];
+    out.extend_from_slice(&position.to_le_bytes());
+    out.extend_from_slice(&declared_queue_len.to_le_bytes());
+    out.extend_from_slice(queue);
+    out.extend_from_slice(body);
+    out
+}
+
+fn multi(records: &[(u64, u32, &[u8])]) -> Vec<u8> {
+    let mut out = Vec::new();
+    for (position, declared_len, payload) in records {
+        out.extend_from_slice(&position.to_le_bytes());
+        out.extend_from_slice(&declared_len.to_le_bytes());
+        out.extend_from_slice(payload);
+    }
+    out
+}
+
+/// Checksum-valid frames with hostile ENTRIES, written where the log ends (so that replay reads
+/// them): unknown entry types, lengths pointing beyond the entry, invalid UTF-8 names, positions at
+/// the edge of u64, entries for unknown queues, batches of very many empty records.  `open` may
+/// accept or reject them; it must not panic, hang or allocate without bound (C10).
+fn hostile_cases(script: &Script, frames: &[Frame], out: &mut Vec<Case>) {
+    let Some(last) = frames.iter().max_by_key(|frame| (frame.file, frame.off)) else { return };
+    let file = last.file;
+    let mut off = last.off + last.len;
+    let rem = BLOCK - off % BLOCK;
+    if rem < 7 {
+        off += rem;
+    }
+    if off + 7 + 64 >= 4 * BLOCK {
+        return;
+    }
+    let room = BLOCK - off % BLOCK - 7;
+    let known = script.queues.first().map(|name| name.as_bytes().to_vec()).unwrap_or_else(|| b"q".to_vec());
+    let known: &[u8] = if known.len() < 200 { &known } else { b"q" };
+    let fresh: &[u8] = b"hostile-queue";
+    let max = u64::MAX;
+    let mut entries: Vec<Vec<u8>> = vec![
+        // unknown entry types
+        raw_entry(0, 0, fresh, fresh.len() as u16, &[]),
+        raw_entry(5, 0, fresh, fresh.len() as u16, &[]),
+        raw_entry(0xff, max, fresh, fresh.len() as u16, &[1, 2, 3]),
+        // shorter than the fixed header
+        vec![4u8, 1, 2, 3],
+        Vec::new(),
+        // declared name length beyond the entry
+        raw_entry(4, 0, fresh, 0xffff, &[]),
+        raw_entry(1, 3, fresh, fresh.len() as u16 + 1, &[]),
+        // invalid UTF-8 in the name
+        raw_entry(2, 0, &[0xff, 0xfe, 0x80], 3, &[]),
+        raw_entry(4, 0, &[0xc3], 1, &multi(&[(0, 1, b"x")])),
+        // empty name
+        raw_entry(2, 7, b"", 0, &[]),
+        raw_entry(4, 7, b"", 0, &multi(&[(7, 1, b"x")])),
+    ];
+    for queue in [known, fresh] {
+        let qlen = queue.len() as u16;
+        // positions at the edge of u64
+        for position in [max, max - 1, 1u64 << 63] {
+            entries.push(raw_entry(1, position, queue, qlen, &[]));
+            entries.push(raw_entry(2, position, queue, qlen, &[]));
+            entries.push(raw_entry(3, position, queue, qlen, &[]));
+            entries.push(raw_entry(4, position, queue, qlen, &multi(&[(position, 1, b"x")])));
+            entries.push(raw_entry(4, position, queue, qlen, &multi(&[(position, 1, b"x"), (position.wrapping_add(1), 1, b"y")])));
+            entries.push(raw_entry(4, 0, queue, qlen, &multi(&[(position, 0, b"")])));
+        }
+        // batch lengths pointing beyond the entry, truncated record headers, decreasing positions
+        entries.push(raw_entry(4, 100, queue, qlen, &multi(&[(100, 0xffff_ffff, b"abc")])));
+        entries.push(raw_entry(4, 100, queue, qlen, &multi(&[(100, 4, b"abc")])));
+        entries.push(raw_entry(4, 100, queue, qlen, &[1, 2, 3, 4, 5]));
+        entries.push(raw_entry(4, 100, queue, qlen, &multi(&[(101, 1, b"a"), (100, 1, b"b")])));
+        entries.push(raw_entry(4, 100, queue, qlen, &multi(&[(100, 1, b"a"), (100, 1, b"b")])));
+        // entry position and record positions disagree
+        entries.push(raw_entry(4, 5, queue, qlen, &multi(&[(1_000_000, 1, b"a")])));
+        // very many empty records in one entry (as many as one frame holds)
+        let many = (room.min(30_000).saturating_sub(11 + queue.len())) / 12;
+        let mut body = Vec::with_capacity(many * 12);
+        for idx in 0..many as u64 {
+            body.extend_from_slice(&(1_000 + idx).to_le_bytes());
+            body.extend_from_slice(&0u32.to_le_bytes());
+        }
+        entries.push(raw_entry(4, 1_000, queue, qlen, &body));
+        // a batch without any record (the library never writes one)
+        entries.push(raw_entry(4, 0, queue, qlen, &[]));
+        entries.push(raw_entry(4, 1 << 40, queue, qlen, &[]));
+        // delete / truncate / position for a queue in various states
+        entries.push(raw_entry(3, 0, queue, qlen, &[9, 9, 9]));
+        entries.push(raw_entry(1, 0, queue, qlen, &[9, 9, 9]));
+    }
+    for entry in entries {
+        if entry.len() > room {
+            continue;
+        }
+        let frame = full_frame(&entry);
+        // alone, and followed by an ordinary append on the same queue (replay continues behind it)
+        out.push(Case { cls: "hostile", ops: vec![Op::Write { file, off, bytes: frame.clone() }], hit: 0, hit_type: 0 });
+        let follow = full_frame(&raw_entry(4, 0, fresh, fresh.len() as u16, &multi(&[(0, 2, b"ok")])));
+        if entry.len() + 7 + follow.len() <= room {
+            let mut both = frame;
+            both.extend_from_slice(&follow);
+            out.push(Case { cls: "hostile", ops: vec![Op::Write { file, off, bytes: both }], hit: 0, hit_type: 0 });
+        }
+    }
+}
+
 fn struct_cases(files: &BTreeMap<u64, FileImg>, rng: &mut Rng, count: usize, out: &mut Vec<Case>) {
     let numbers: Vec<u64> = files.keys().copied().collect();
     if numbers.is_empty() {
@@ -563,6 +683,9 @@ pub fn cmd(args: &Args) {
         }
         if classes.iter().any(|cls| cls == "struct") {
             struct_cases(&image.files, &mut rng, struct_count, &mut cases);
+        }
+        if classes.iter().any(|cls| cls == "hostile") {
+            hostile_cases(script, &live, &mut cases);
         }
         if max_cases > 0 && cases.len() > max_cases {
             // thin evenly
